@@ -106,6 +106,19 @@ pub proof fn lemma_sorted_after(w: World, t: CheckpointType, n: u32, q: u32, m: 
     }
 }
 
+/// the same fact for every position at once (so that a proof does not depend on which position the code probes)
+pub open spec fn sorted_after_all(w: World, t: CheckpointType, n: u32, q: u32) -> bool {
+    forall|m: u32, j: u32| m <= j && j < n && (#[trigger] cp_at(w, t, m))->Some_0.ledger > q ==> #[trigger] cp_led(w, t, j) > q
+}
+pub proof fn lemma_sorted_after_all(w: World, t: CheckpointType, n: u32, q: u32)
+    requires cps_ok(w, t, n),
+    ensures sorted_after_all(w, t, n, q),
+{
+    assert forall|m: u32, j: u32| m <= j && j < n && (#[trigger] cp_at(w, t, m))->Some_0.ledger > q implies #[trigger] cp_led(w, t, j) > q by {
+        lemma_sorted_after(w, t, n, q, m);
+    }
+}
+
 // ---- exact successor states ----
 pub open spec fn cp_apply(prev: u128, op: CheckpointOp, delta: u128) -> int {
     match op { CheckpointOp::Add => prev + delta, CheckpointOp::Sub => prev - delta }
